@@ -19,6 +19,7 @@ type specCtx struct {
 	st   *State
 	old  *State
 	errs *[]string
+	wantResult int
 }
 
 func (c *specCtx) fail(format string, a ...any) Val {
@@ -488,6 +489,20 @@ func (c *specCtx) call(t *ast.CallExpr, n *SpecNode) Val {
 	case *ast.ParenExpr:
 	}
 	arg := func(i int) Val { return c.expr(t.Args[i], n) }
+	if fname == "nth" && len(t.Args) == 2 {
+		// nth(i, f(args)): i-th result of a pure library call with several results
+		iv := arg(0)
+		k := 0
+		if iv.Const != nil {
+			if kk, ok := constant.Int64Val(iv.Const); ok {
+				k = int(kk)
+			}
+		}
+		c.wantResult = k
+		v := c.expr(t.Args[1], n)
+		c.wantResult = 0
+		return v
+	}
 	switch fname {
 	case "old":
 		saved := c.st
@@ -700,8 +715,8 @@ func (c *specCtx) call(t *ast.CallExpr, n *SpecNode) Val {
 							args = append(args, a)
 						}
 						rs := c.x.pureCall(c.st, f, f.Signature, args)
-						if len(rs) >= 1 {
-							return rs[0]
+						if len(rs) > c.wantResult {
+							return rs[c.wantResult]
 						}
 					}
 				}
